@@ -35,7 +35,10 @@ def check(run):
         fname = short(f["qn"]) + f.get("targs", "") + ("(%s)" % short(f["sig"][0]) if f["qn"].endswith("write_block") and f["sig"] else "")
         seen = {}
         for s in sites:
-            base = "%s:%s(%s)" % (fname, callee_name(s.call), ",".join(ir.show(a) for a in s.call.get("args", []))[:60])
+            if s.call.get("k") == "Bin":
+                base = "%s:overwrite(%s)" % (fname, ir.show(s.call.get("lhs")))
+            else:
+                base = "%s:%s(%s)" % (fname, callee_name(s.call), ",".join(ir.show(a) for a in s.call.get("args", []))[:60])
             seen[base] = seen.get(base, 0) + 1
             key = base if seen[base] == 1 else "%s#%d" % (base, seen[base])
             run.ob("R10.1", key, s.status, f, s.call.get("l", 0), s.why, nontrivial=True)
